@@ -551,3 +551,53 @@ package pubsub
 //@   ensures ctxerr: result != nil && result != ErrQueueClosed && !(!old(admits(dq.tracker)) && result == old(why(dq.tracker))) ==> done(ctx)
 //@   ensures dq.closed == old(dq.closed)
 //@   modifies element.next, element.prev, dq.view, element.idx, tfields(dq.tracker), dwakes(dq)
+
+// ---------------------------------------------------------------------------
+// Non-destructive Queue iterator (C20). An entry is "linked" once doAdd has
+// attached it to the queue (ghost guard == q.mu, never reset; popped entries
+// stay linked and keep their link). Links only lead to linked entries, never
+// to the sentinel. The iterator's cursor is the sentinel or a linked entry.
+// ---------------------------------------------------------------------------
+
+//@ pred qlinks(q *Queue) = forall e: entry :: e.guard == q.mu && e.link != nil ==> cast(e.link, "*entry").guard == q.mu && e.link != q.front
+//@ lockinv[C20] Queue.mu(q) = qlinks(q)
+
+// waitForLink: wait until an entry is linked after the cursor. It parks only
+// while the cursor has no successor and the queue is open ("does not remain
+// blocked while an unseen item is present"); every successful doAdd notifies
+// all parked iterators (doAdd/post(iterwake)).
+//@ func (*Queue).waitForLink
+//@   props C20 C07 C13
+//@   option old section
+//@   option waitkind iter
+//@   option park-requires cursor.link == nil && !q.closed
+//@   requires q != nil && !held(q.mu) && ctx != nil && cursor != nil && cursor.guard == q.mu
+//@   ensures !held(q.mu)
+//@   ensures failed: result != nil ==> (result == ErrQueueClosed && q.closed) || (result != ErrQueueClosed && done(ctx))
+//@   modifies qwakes(q)
+//@   loop 1 invariant held(q.mu) && qinv(q) && qlinks(q) && qcounters(q) && wkNE(q) && wkUA(q) && unmodified(qguarded(q))
+
+//@ func (*Queue).waitForNew
+//@   props C20 C13
+//@   option old section
+//@   option waitkind iter
+//@   requires q != nil && !held(q.mu) && ctx != nil
+//@   ensures !held(q.mu)
+//@   modifies qwakes(q)
+
+// The iterator step: never dereferences nil under arbitrary interference at
+// every re-Lock; yields the item of the entry linked right after the cursor
+// (so, absent removals: in order, nothing skipped, each once) and moves the
+// cursor there; the cursor is always the sentinel or a linked entry, so a
+// yielded value was added to the queue ("never invents").
+//@ func (*Queue).Producer$1
+//@   props C20 C13
+//@   option old section
+//@   option waitkind iter
+//@   requires q != nil && !held(q.mu) && ctx != nil && (next != nil ==> next.guard == q.mu)
+//@   ensures !held(q.mu) && next != nil && next.guard == q.mu
+//@   ensures notfront: result1 == nil ==> next != q.front
+//@   ensures item: result1 == nil ==> result0 == next.item
+//@   ensures step: result1 == nil ==> next == old(next).link
+//@   modifies cell(next), qwakes(q)
+//@   loop 1 invariant !held(q.mu) && next != nil && next.guard == q.mu
